@@ -126,6 +126,16 @@ func TestModulePermutation(t *testing.T) {
 				renameType(m, d.Name, fmt.Sprintf("t%0*d", 1+i%3, (i*7)%23))
 			}
 		}
+		for i, c := range m.Comdats {
+			if i%3 != 2 {
+				c.Name = fmt.Sprintf("sec%0*d", 1+i%2, 2+(i*9)%31)
+			}
+		}
+		for i, nm := range m.NamedMDs {
+			if i%3 != 2 && !strings.HasPrefix(nm.Name, "llvm.") {
+				nm.Name = fmt.Sprintf("nm.%0*d.x", 1+i%2, 2+(i*9)%31)
+			}
+		}
 		x := m.Text()
 		orig := m.Order
 		m.Order = permute(rt, m)
